@@ -353,8 +353,9 @@ def finish(ctx, level, coverage, assumptions):
         "model_mismatches": [c["signature"] for c in ctx.conformance],
         "tlc_runs": ctx.tlc_runs,
     }
-    os.makedirs(os.path.join(VERIF, "evidence"), exist_ok=True)
-    with open(os.path.join(VERIF, "evidence", ctx.prop + ".json"), "w") as f:
+    evdir = os.environ.get("VERIF_EVIDENCE_DIR") or os.path.join(VERIF, "evidence")
+    os.makedirs(evdir, exist_ok=True)
+    with open(os.path.join(evdir, ctx.prop + ".json"), "w") as f:
         json.dump(ev, f, indent=1, default=str)
     if not new and ctx.conformance:
         rdir = os.path.join(VERIF, "replays", ctx.prop)
